@@ -52,6 +52,16 @@ def rand_score(ctx, referenced=False):
                 for n in m.notes:
                     if n.type not in ('r', 'l') and rng.random() < 0.4:      # a rest / continuation has no amplitude of its own
                         n.amp = rng.choice([1, 20, 66, 115, 119, 120, 121, 124, 126, 127, rng.randint(1, 127)])
+    if rng.random() < 0.1:
+        # durations with co-prime denominators (1/7, 1/11, 1/13, 1/9): each is inside the library's 1/1000 resolution but
+        # their running sums are not, and an onset is such a sum - it must stay exact (seed C03-8 rounded the offsets of
+        # the rendered rows to the resolution "like Note does")
+        from fractions import Fraction
+        for c in s.chords:
+            for m in c.score.values():
+                for n in m.notes:
+                    if rng.random() < 0.6:
+                        n.duration = Fraction(rng.randint(1, 3), rng.choice([7, 11, 13, 9]))
     return s
 
 
